@@ -519,8 +519,8 @@ pub fn c06(o: &mut O, tier: &str, rng: &mut Rng) {
         (2015, 1, 9),
         (100, 3, 1),
     ];
-    let regions = ["us-east-1", "", "eu-west-1", "r\u{e9}gion", "\u{20ac}", "a/b", "us-east-1 "];
-    let services = ["service", "", "s3", "iam", "s\u{e9}rvice", "aws4_request"];
+    let regions = ["us-east-1", "", "eu-west-1", "r\u{e9}gion", "\u{20ac}", "a/b", "us-east-1 ", "fips-us-gov-west-1", "us-east-1-fips", "aws-global", "cn-north-1"];
+    let services = ["service", "", "s3", "iam", "s\u{e9}rvice", "aws4_request", "execute-api", "sts", "s3-fips"];
     let alphabet: Vec<char> = "wJalrXUtnFEMI/K7MDENG+bPxRfiCYEXAMPLEKEY0123456789 =\u{e9}\u{20ac}".chars().collect();
     // every length 0..48 (in bytes), the AWS example secret, random content incl. non-ASCII
     for len in 0..=48usize {
@@ -679,10 +679,15 @@ fn c06_odd_inputs(o: &mut O, tier: &str) {
         observe_key(o, s, d, "us-east-1", "iam", "c06,odd_secret");
     }
     // region / service: every byte is hashed as given
-    let scopes = [
+    let scopes: Vec<&str> = vec![
         "us-east-1", " us-east-1", "us-east-1 ", "us-east-1\n", "us-east-1\t", "\tus-east-1", "us-east-1\0", "us- east-1", "US-EAST-1", "Us-East-1", "us-east-1\u{a0}",
         "\u{a0}us-east-1", "us-east-1\u{3000}", "us-east-1\r\n", "us-east-1/", "/us-east-1", "us-east-1/iam", "us-east-", "s-east-1", " ", "\0", "aws4_request", "AWS4",
         "us-east-1\u{200b}", "\u{feff}us-east-1", "\u{130}", "\u{212a}",
+        // names with a meaning elsewhere in the ecosystem (FIPS / dual-stack endpoint pseudo-regions, partitions, the
+        // global pseudo-region, service endpoint prefixes vs signing names): opaque data in the chain
+        "fips-us-gov-west-1", "us-gov-west-1-fips", "us-east-1-fips", "fips-us-east-1", "fips-", "-fips", "fips", "fips-fips-x", "x-fips-fips", "fips-us-east-1-fips",
+        "aws-global", "aws-cn-global", "aws-us-gov-global", "cn-north-1", "cn-northwest-1", "us-iso-east-1", "us-isob-east-1", "eu-central-2", "us-gov-east-1", "dualstack.us-east-1",
+        "s3", "s3-fips", "sts", "iam", "execute-api", "es", "dynamodb", "monitoring", "email", "ses", "s3-external-1", "us-east-1.amazonaws.com", "global", "*", "default",
     ];
     for (i, sc) in scopes.iter().enumerate() {
         observe_key(o, aws, d, sc, "iam", "c06,odd_region");
@@ -696,6 +701,8 @@ fn c06_odd_inputs(o: &mut O, tier: &str) {
         (0, 1, 1), (0, 12, 31), (1, 1, 1), (9, 9, 9), (10, 1, 1), (99, 12, 31), (100, 1, 1), (999, 12, 31), (1000, 1, 1), (1582, 10, 4), (1582, 10, 15), (1900, 2, 28), (1900, 3, 1),
         (1969, 12, 31), (1970, 1, 1), (2000, 2, 29), (2015, 1, 1), (2015, 1, 31), (2015, 9, 1), (2015, 10, 1), (2015, 10, 10), (2015, 12, 31), (2016, 2, 29), (2016, 12, 31), (2038, 1, 19),
         (2038, 1, 20), (2100, 2, 28), (2100, 3, 1), (9999, 1, 1), (9999, 12, 31), (4, 2, 29), (400, 2, 29), (8, 8, 8), (123, 4, 5), (1234, 5, 6), (2015, 11, 11), (2015, 2, 28),
+        // days whose ISO week-numbering year is not the calendar year; day 366
+        (2016, 1, 1), (2016, 1, 3), (2018, 12, 31), (2019, 12, 30), (2021, 1, 1), (2021, 1, 3), (2024, 12, 30), (2025, 12, 29), (2027, 1, 1), (2010, 1, 3), (2020, 12, 31), (2012, 1, 1),
     ];
     for (i, dt) in dates.iter().enumerate() {
         observe_key(o, if i % 2 == 0 { aws } else { "k" }, *dt, "us-east-1", "iam", "c06,date_padding");
